@@ -242,6 +242,9 @@ struct Sandbox {
   uint64_t scratch[8];
   Image after;           // register file right after the function under test returned (gp: all but sp, vec: low 128 bits)
   uint64_t after_sp;     // stack pointer right after the return
+  uint64_t gate_esp;     // 32-bit runs: stack pointer of the 64->32 gate while the function under test runs
+  uint32_t far_off;      // m16:32 far pointer to the 32-bit stub (selector 0x23 = the kernel's 32-bit user code segment)
+  uint16_t far_sel;
 };
 
 static Sandbox* g_sb = nullptr;       // lives below 2 GiB so that absolute [disp32] addressing reaches it
@@ -333,7 +336,100 @@ static bool init_sandbox() {
   return true;
 }
 
+// ---- i386 execution: the 64-bit process far-calls into a 32-bit code segment (everything involved lives below 4 GiB) ----
+static uint8_t* g_code32 = nullptr;            // RWX, MAP_32BIT: [0,4K) 64-bit gate, [4K,64K) 32-bit stub, [64K,..) function under test
+static const size_t kCode32Size = 1 << 20, kFn32Offset = 65536;
+static uint8_t* g_gate_stack = nullptr;
+
+static bool place_code(CodeHolder& code, uint8_t* dst, size_t cap) {
+  if (code.flatten() != Error::kOk || code.resolve_cross_section_fixups() != Error::kOk) return false;
+  if (code.relocate_to_base(uint64_t(uintptr_t(dst))) != Error::kOk) return false;
+  size_t n = code.code_size();
+  if (n > cap) return false;
+  return code.copy_flattened_data(dst, n, CopySectionFlags::kPadSectionBuffer) == Error::kOk;
+}
+
+static bool init_sandbox32() {
+  using namespace x86;
+  g_code32 = (uint8_t*)mmap(nullptr, kCode32Size, PROT_READ | PROT_WRITE | PROT_EXEC, MAP_PRIVATE | MAP_ANONYMOUS | MAP_32BIT, -1, 0);
+  g_gate_stack = (uint8_t*)mmap(nullptr, 65536, PROT_READ | PROT_WRITE, MAP_PRIVATE | MAP_ANONYMOUS | MAP_32BIT, -1, 0);
+  if (g_code32 == MAP_FAILED || g_gate_stack == MAP_FAILED || uintptr_t(g_code32) + kCode32Size >= 0x7FFF0000ull || uintptr_t(g_gate_stack) + 65536 >= 0x7FFF0000ull) return false;
+  struct EH : public ErrorHandler { void handle_error(Error err, const char* msg, BaseEmitter*) override { fprintf(stderr, "gate emit: %s\n", msg); } } eh;
+  {
+    // 64-bit side: switch to a stack below 4 GiB, load flat data segments, far call, come back
+    CodeHolder code;
+    code.init(g_rt->environment(), g_rt->cpu_features());
+    Assembler a(&code);
+    a.set_error_handler(&eh);
+    a.push(rbx); a.push(rbp); a.push(r12); a.push(r13); a.push(r14); a.push(r15);
+    a.mov(abs_mem(&g_sb->saved_sp, 8), rsp);
+    a.mov(rsp, imm(uint64_t(uintptr_t(g_gate_stack + 65536 - 256))));
+    a.mov(eax, 0x2b);
+    a.embed("\x8E\xD8\x8E\xC0", 4);                       // mov ds, eax ; mov es, eax
+    uint32_t fp = uint32_t(uintptr_t(&g_sb->far_off));
+    uint8_t lcall[7] = {0xFF, 0x1C, 0x25, uint8_t(fp), uint8_t(fp >> 8), uint8_t(fp >> 16), uint8_t(fp >> 24)};   // call far m16:32 [abs]
+    a.embed(lcall, 7);
+    a.xor_(eax, eax);
+    a.embed("\x8E\xD8\x8E\xC0", 4);
+    a.mov(rsp, abs_mem(&g_sb->saved_sp, 8));
+    a.cld();
+    a.pop(r15); a.pop(r14); a.pop(r13); a.pop(r12); a.pop(rbp); a.pop(rbx);
+    a.ret();
+    if (!place_code(code, g_code32, 4096)) return false;
+  }
+  {
+    // 32-bit side: the same job the 64-bit trampoline does
+    CodeHolder code;
+    code.init(Environment(Arch::kX86, SubArch::kUnknown, Vendor::kUnknown, Platform::kLinux, PlatformABI::kGNU));
+    Assembler a(&code);
+    a.set_error_handler(&eh);
+    a.mov(abs_mem(&g_sb->gate_esp, 4), esp);
+    for (uint32_t i = 0; i < 8; i++) {
+      if (g_has_avx512) a.vmovups(zmm(i), abs_mem(g_sb->in.vec[i], 64));
+      else if (g_has_avx) a.vmovups(ymm(i), abs_mem(g_sb->in.vec[i], 32));
+      else a.movups(xmm(i), abs_mem(g_sb->in.vec[i], 16));
+    }
+    if (g_has_avx512)
+      for (uint32_t i = 0; i < 8; i++) a.kmovq(k(i), abs_mem(&g_sb->in.k[i], 8));
+    for (uint32_t i = 0; i < 8; i++) a.movq(mm(i), abs_mem(&g_sb->in.mm[i], 8));
+    for (uint32_t i = 0; i < 8; i++)
+      if (i != Gp::kIdSp) a.mov(gpd(i), abs_mem(&g_sb->in.gp[i], 4));
+    a.mov(esp, abs_mem(&g_sb->new_sp, 4));
+    a.call(abs_mem(&g_sb->target, 4));
+    a.mov(abs_mem(&g_sb->after_sp, 4), esp);
+    a.mov(esp, abs_mem(&g_sb->gate_esp, 4));
+    for (uint32_t i = 0; i < 8; i++)
+      if (i != Gp::kIdSp) a.mov(abs_mem(&g_sb->after.gp[i], 4), gpd(i));
+    for (uint32_t i = 0; i < 8; i++) {
+      if (g_has_avx) a.vmovups(abs_mem(g_sb->after.vec[i], 16), xmm(i));
+      else a.movups(abs_mem(g_sb->after.vec[i], 16), xmm(i));
+    }
+    a.emms();
+    if (g_has_avx) a.vzeroupper();
+    a.retf();
+    if (!place_code(code, g_code32 + 4096, kFn32Offset - 4096)) return false;
+  }
+  g_sb->far_off = uint32_t(uintptr_t(g_code32 + 4096));
+  g_sb->far_sel = 0x23;
+  g_tramp = (TrampFn)(void*)g_code32;
+  return true;
+}
+
 // Emits the body that dumps the whole register file into g_sb->out (absolute addressing only).
+static void emit_dump32(x86::Assembler& a) {
+  using namespace x86;
+  for (uint32_t i = 0; i < 8; i++)
+    if (i != Gp::kIdSp) a.mov(abs_mem(&g_sb->out.gp[i], 4), gpd(i));
+  for (uint32_t i = 0; i < 8; i++) {
+    if (g_has_avx512) a.vmovups(abs_mem(g_sb->out.vec[i], 64), zmm(i));
+    else if (g_has_avx) a.vmovups(abs_mem(g_sb->out.vec[i], 32), ymm(i));
+    else a.movups(abs_mem(g_sb->out.vec[i], 16), xmm(i));
+  }
+  if (g_has_avx512)
+    for (uint32_t i = 0; i < 8; i++) a.kmovq(abs_mem(&g_sb->out.k[i], 8), k(i));
+  for (uint32_t i = 0; i < 8; i++) a.movq(abs_mem(&g_sb->out.mm[i], 8), mm(i));
+}
+
 static void emit_dump(x86::Assembler& a) {
   using namespace x86;
   for (uint32_t i = 0; i < 16; i++)
@@ -446,7 +542,8 @@ static int mode_shuffle(const Args& args) {
   uint64_t count = args.u64("count", 100);
   uint64_t first = args.u64("first", 0);
   int64_t only = args.has("only") ? int64_t(args.u64("only", 0)) : -1;
-  bool exec = arch_s == "x64" && args.u64("exec", 1) != 0;
+  bool exec = (arch_s == "x64" && args.u64("exec", 1) != 0) || (arch_s == "x86" && args.u64("exec", 0) != 0);
+  bool exec32 = exec && arch_s == "x86";
   uint64_t convert_mode = args.u64("convert", 0);   // 0: never request f32<->f64 conversion, 1: request it often
   // 1: enumerated frame/assignment variants for signatures with stack-passed arguments: the stack-argument base register is
   //    {default, every callee-saved GP register of the convention, a caller-saved scratch register} x {dynamic alignment} x
@@ -455,7 +552,7 @@ static int mode_shuffle(const Args& args) {
   Arch arch = arch_s == "x64" ? Arch::kX64 : arch_s == "x86" ? Arch::kX86 : Arch::kAArch64;
   bool is_x86 = arch != Arch::kAArch64;
 
-  if (exec && !init_sandbox()) {
+  if (exec && (!init_sandbox() || (exec32 && !init_sandbox32()))) {
     printf("{\"summary\":1,\"mode\":\"shuffle\",\"fatal\":\"sandbox init failed\",\"violations\":[]}\n");
     return 4;
   }
@@ -952,7 +1049,7 @@ static int mode_shuffle(const Args& args) {
     CodeHolder& code = *code_ptr;
     struct CodeGuard { CodeHolder* p; bool keep; ~CodeGuard() { if (!keep) delete p; } } code_guard{code_ptr, false};
     bool hung = false;
-    if (exec) code.init(g_rt->environment(), g_rt->cpu_features());
+    if (exec && !exec32) code.init(g_rt->environment(), g_rt->cpu_features());
     else code.init(env);
     size_t off_prolog = 0, off_assign = 0;
     Error e1 = Error::kOk;
@@ -968,7 +1065,18 @@ static int mode_shuffle(const Args& args) {
       off_prolog = a.offset();
       if (e1 == Error::kOk) e1 = a.emit_args_assignment(frame, asg);
       off_assign = a.offset();
-      if (e1 == Error::kOk && exec) {
+      if (e1 == Error::kOk && exec32) {
+        emit_dump32(a);
+        uint32_t o = 0;
+        for (auto& s : slots) {
+          for (uint32_t b = 0; b < s.size; b += 4) {
+            a.mov(x86::eax, x86::ptr(x86::esp, int32_t(s.off + b), 4));
+            a.mov(abs_mem(g_sb->out_stack + o + b, 4), x86::eax);
+          }
+          o += 64;
+        }
+      }
+      else if (e1 == Error::kOk && exec) {
         emit_dump(a);
         // destination stack slots -> out_stack (8 bytes at a time through rax)
         uint32_t o = 0;
@@ -1034,7 +1142,12 @@ static int mode_shuffle(const Args& args) {
     // ---- native execution ----
     if (exec) {
       void* fn = nullptr;
-      Error e2 = g_rt->_add(&fn, &code);
+      Error e2 = Error::kOk;
+      if (exec32) {
+        fn = g_code32 + kFn32Offset;
+        if (!place_code(code, (uint8_t*)fn, kCode32Size - kFn32Offset)) e2 = Error::kInvalidState;
+      }
+      else e2 = g_rt->_add(&fn, &code);
       if (e2 != Error::kOk) {
         st.rejects[std::string("jit:") + err_name(e2)]++;
         emit_line((head + ",\"err\":" + jstr(std::string("jit:") + err_name(e2)) + "}").c_str());
@@ -1129,7 +1242,7 @@ static int mode_shuffle(const Args& args) {
         }
         if (sa_out >= 0) {
           // [sa + sa_offset_from_sa] is the first stack argument; the call pushed the return address just below `area`
-          uint64_t got = sb.out.gp[sa_out] + frame.sa_offset_from_sa();
+          uint64_t got = (exec32 ? (sb.out.gp[sa_out] & 0xFFFFFFFFull) : sb.out.gp[sa_out]) + frame.sa_offset_from_sa();
           uint64_t first_arg = uint64_t(uintptr_t(area));
           if (got != first_arg) {
             sa_bad = true;
@@ -1140,27 +1253,36 @@ static int mode_shuffle(const Args& args) {
       // ---- what the caller sees after the return: preserved registers hold their sentinels, the stack pointer is back ----
       std::string pres_bad;
       if (!sig_no) {
-        for (uint32_t i = 0; i < 16; i++) {
+        const uint32_t nregs = exec32 ? 8 : 16;
+        const uint64_t gp_mask = exec32 ? 0xFFFFFFFFull : ~0ull;
+        for (uint32_t i = 0; i < nregs; i++) {
           if (i == x86::Gp::kIdSp || !((abi_pres_gp >> i) & 1)) continue;
-          if (sb.after.gp[i] != sb.in.gp[i]) {
+          if ((sb.after.gp[i] & gp_mask) != (sb.in.gp[i] & gp_mask)) {
             char b[160];
-            snprintf(b, sizeof b, "%s[\"gp\",%u,\"%016llx\",\"%016llx\"]", pres_bad.empty() ? "" : ",", i, (unsigned long long)sb.in.gp[i], (unsigned long long)sb.after.gp[i]);
+            snprintf(b, sizeof b, "%s[\"gp\",%u,\"%0*llx\",\"%0*llx\"]", pres_bad.empty() ? "" : ",", i, exec32 ? 8 : 16, (unsigned long long)(sb.in.gp[i] & gp_mask), exec32 ? 8 : 16, (unsigned long long)(sb.after.gp[i] & gp_mask));
             pres_bad += b;
           }
         }
-        for (uint32_t i = 0; i < 16; i++) {
+        for (uint32_t i = 0; i < nregs; i++) {
           if (!((abi_pres_vec >> i) & 1)) continue;
           if (memcmp(sb.after.vec[i], sb.in.vec[i], 16) != 0)
             pres_bad += std::string(pres_bad.empty() ? "" : ",") + "[\"vec\"," + std::to_string(i) + "," + jstr(hexstr(sb.in.vec[i], 16)) + "," + jstr(hexstr(sb.after.vec[i], 16)) + "]";
         }
         head += ",\"pres_checked\":" + std::to_string(Support::popcnt(abi_pres_gp & ~0x10u) + Support::popcnt(abi_pres_vec)) + ",\"pres_bad\":[" + pres_bad + "]";
-        if (sb.after_sp != sb.new_sp) {
+        // the callee removes its stack arguments only where the platform convention says so (i386 stdcall/fastcall/thiscall/vectorcall)
+        uint64_t abi_pops = 0;
+        if (exec32) {
+          if (light) abi_pops = frame.callee_stack_cleanup();
+          else if (!strcmp(cv.conv, "stdcall") || !strcmp(cv.conv, "fastcall") || !strcmp(cv.conv, "vectorcall") || (!strcmp(cv.conv, "thiscall") && !strcmp(cv.env, "x86-win"))) abi_pops = fd.arg_stack_size();
+        }
+        uint64_t sp_after = exec32 ? (sb.after_sp & 0xFFFFFFFFull) : sb.after_sp;
+        if (sp_after != sb.new_sp + abi_pops) {
           char b[96];
-          snprintf(b, sizeof b, ",\"sp_bad\":%lld", (long long)(sb.after_sp - sb.new_sp));
+          snprintf(b, sizeof b, ",\"sp_bad\":%lld", (long long)(sp_after - (sb.new_sp + abi_pops)));
           head += b;
         }
       }
-      g_rt->_release(fn);
+      if (!exec32) g_rt->_release(fn);
       head += ",\"native\":" + jstr(verdict) + ",\"nat\":[" + nat + "]" + (sa_bad ? ",\"sa_bad\":1" : "");
     }
     emit_line((head + "}").c_str());
